@@ -18,6 +18,8 @@ TRUSTED = ["text layer of names: modelled (Zc.NameText: strip one trailing dot, 
            "(`=<hex of its UTF-8>`) and splits/encodes itself; CPython's str.split / str.encode / bytes.decode are the reference it is compared with",
            "lone surrogates in names (UnicodeEncodeError) are not text and are not generated",
            "remaining-TTL arithmetic on integer milliseconds only",
+           "the theorems are about messages as values; the library's entry objects are shared between messages: explored (every 5th message has a twin in the "
+           "other mode built from the same objects), not modelled; likewise add_answer() and a second packets() call",
            "Zeroconf.async_send is driven with a recording transport on an object made by Zeroconf.__new__ (no sockets, no loop): only the loop over "
            "out.packets() and its size guard are exercised"]
 ASSUMPTIONS = ["names are handed to the builder as str; what must come back is the same str (with its trailing dot) from the library's decoder and from "
